@@ -168,6 +168,8 @@ def render_nodes(nodes, at):
                 at.append("\\stepcounter{%s}" % n["c"])
         elif k == "setr":
             at.append("\\%s=%d\\relax" % (n["r"], n["v"]))
+        elif k == "newif":
+            at.append("\\newif\\if%s" % n["sw"])
         elif k == "defnum":
             at.append("\\def\\%s{%d}" % (n["n"], n["v"]))
         elif k == "defx":
@@ -355,6 +357,8 @@ class Predictor(object):
                     self.counters[n["c"]] += 1
             elif k == "setr":
                 self.regs[n["r"]] = n["v"]
+            elif k == "newif":
+                self.scope.top["sw"][n["sw"]] = False
             elif k == "defnum":
                 self.scope.top["num"][n["n"]] = n["v"]
             elif k == "defx":
@@ -491,6 +495,18 @@ class Gen(object):
                     "blank": a["k"] == "lit" and self.p(2)}
         if r <= 10:
             a = self.dim_literal()
+            if self.p(2):
+                # a pair less than one scaled point apart that TeX nevertheless puts on different sp values
+                # (asserted because the exact rational values and TeX's rounded ones order the same way)
+                n, f = self.i(0, 40), self.i(0, 99998)
+                step = self.pick([1, 1, 2])
+                sa, sb = "%d.%05dpt" % (n, f + step), "%d.%05dpt" % (n, f)
+                if dimen_sp(sa) != dimen_sp(sb):
+                    pair = [{"k": "dim", "s": sa, "v": dimen_sp(sa)}, {"k": "dim", "s": sb, "v": dimen_sp(sb)}]
+                    if self.p(5):
+                        pair.reverse()
+                    self.features.add("ifdim-operands-less-than-2sp-apart")
+                    return {"k": "ifdim", "a": pair[0], "rel": self.pick("<=>"), "b": pair[1], "blank": self.p(2)}
             if self.p(3):
                 b = dict(a)
             else:
@@ -651,6 +667,24 @@ class Gen(object):
                                      self.cond_with(depth, sub, {"k": "ifdefined", "n": n})]})
                 out.append(self.cond_with(depth, ctx, {"k": "ifdefined", "n": n}))
                 self.features.add("ifdefined-after-lookup-then-local-definition")
+            elif r == 19 and self.p(3) and depth == 0 and ctx["groups"] == 0 and not ctx["in_macro"] \
+                    and not ctx.get("in_arg") and self.nifs < 7 and getattr(self, "late_switches", 0) < 2:
+                # a switch declared inside the text of a conditional that is being executed and tested at once
+                # (only where the text is certainly executed: a skipped \newif would not be balanced in TeX)
+                sw = ["zn", "fz"][getattr(self, "late_switches", 0)]
+                self.late_switches = getattr(self, "late_switches", 0) + 1
+                self.nifs += 1
+                outer = {"k": "if", "id": self.nifs, "test": {"k": "iftrue"} if self.p(5) else
+                         {"k": "ifnum", "a": {"k": "lit", "v": 1, "s": "1"}, "rel": "=", "b": {"k": "lit", "v": 1, "s": "1"},
+                          "blank": True}, "arms": [[]], "else": self.branch(1, ctx)}
+                arm = outer["arms"][0]
+                arm.append({"k": "newif", "sw": sw})
+                if self.p(3):
+                    arm.append({"k": "set", "sw": sw, "v": self.p(5)})
+                arm.append(self.cond_with(1, ctx, {"k": "switch", "sw": sw}))
+                arm.extend(self.branch(1, ctx))
+                out.append(outer)
+                self.features.add("newif-inside-conditional-text")
             elif r == 18:
                 out.append({"k": "relax"})
             else:
